@@ -699,25 +699,24 @@ where
 pub(crate) const fn __bytes_find(left: &[u8], pattern: &[u8]) -> Option<usize> {
     let mut matching = pattern;
 
-    crate::for_range! {i in 0..left.len() =>
+    let mut i = 0;
+
+    while i < left.len() {
         match matching {
             [mb, m_rem @ ..] => {
-                let b = left[i];
-
-                matching = if b == *mb {
-                    m_rem
+                if left[i] == *mb {
+                    matching = m_rem;
                 } else {
-                    match pattern {
-                        // For when the string is "lawlawn" and we are trying to find "lawn"
-                        [mb2, m_rem2 @ ..] if b == *mb2 => m_rem2,
-                        _ => pattern,
-                    }
-                };
+                    // Restarting right after the start of the partial match,
+                    // for when the string is "lawlawn" or "aaab" and
+                    // we are trying to find "lawn" or "aab".
+                    i -= pattern.len() - matching.len();
+                    matching = pattern;
+                }
             }
-            [] => {
-                return Some(i - pattern.len())
-            }
+            [] => return Some(i - pattern.len()),
         }
+        i += 1;
     }
 
     if matching.is_empty() {
@@ -790,17 +789,15 @@ pub(crate) const fn __bytes_rfind(left: &[u8], pattern: &[u8]) -> Option<usize> 
 
         match matching {
             [m_rem @ .., mb] => {
-                let b = left[i];
-
-                matching = if b == *mb {
-                    m_rem
+                if left[i] == *mb {
+                    matching = m_rem;
                 } else {
-                    match pattern {
-                        // For when the string is "lawlawn" and we are trying to find "lawn"
-                        [m_rem2 @ .., mb2] if b == *mb2 => m_rem2,
-                        _ => pattern,
-                    }
-                };
+                    // Restarting right before the end of the partial match,
+                    // for when the string is "nwalwal" or "baaa" and
+                    // we are trying to find "nwal" or "baa".
+                    i += pattern.len() - matching.len();
+                    matching = pattern;
+                }
             }
             [] => return Some(i + (!pattern.is_empty()) as usize),
         }
@@ -1095,23 +1092,17 @@ macro_rules! byte_find_then {
 
             if let $slice_order!(b, ref rem @ ..) = *$next {
                 if b != mb {
-                    matching = match *$needle {
-                        // For when the string is "lawlawn" and we are skipping "lawn"
-                        $slice_order!(mb2, ref m_rem2 @ ..) if b == mb2 => {
-                            // This is considered used in half of the macro invocations
-                            #[allow(unused_assignments)]
-                            {$this = $next;}
-                            m_rem2
-                        },
-                        _ => {
-                            // This is considered used in half of the macro invocations
-                            #[allow(unused_assignments)]
-                            {$this = rem;}
-                            $needle
-                        },
-                    };
+                    // Restarting one byte after where the partial match started,
+                    // for when the string is "lawlawn" or "aaab" and
+                    // we are skipping "lawn" or "aab".
+                    if let $slice_order!(_skipped, ref this_rem @ ..) = *$this {
+                        $this = this_rem;
+                    }
+                    $next = $this;
+                    matching = $needle;
+                } else {
+                    $next = rem;
                 }
-                $next = rem;
             } else {
                 return None;
             }
